@@ -321,6 +321,12 @@ def gen_rarr(tier):
             for nl in (1, 3):
                 for sh in ("conforming", "stack2", "stack1", "vector", "column", "larger", "trailing2", "short", "wide"):
                     yield {"kind": "rarr", "op": op, "shape": sh, "L": lk, "nl": nl, "vals": DEFAULT_VALS, "R": "ndarray", "nr": 1}
+    # rigid motion * array: points have one coordinate fewer than the matrix has rows; homogeneous vectors / matrices of the
+    # matrix's own size and stacks are not documented operands
+    for lk in ("SE2", "SE3"):
+        for nl in (1, 3):
+            for sh in ("conforming", "stack2", "stack1", "vector", "column", "larger", "trailing2"):
+                yield {"kind": "rarr", "op": "*", "shape": sh, "L": lk, "nl": nl, "vals": DEFAULT_VALS, "R": "ndarray", "nr": 1}
 
 
 def _rarr(case):
